@@ -106,7 +106,12 @@ func (k Keeper) RouteExactAmountOut(ctx sdk.Context,
 		// Calculate the total discounted swap fee
 		totalDiscountedSwapFee = totalDiscountedSwapFee.Add(swapFee)
 
-		_tokenInAmount, swapErr := k.InternalSwapExactAmountOut(ctx, sender, recipient, pool, route.TokenInDenom, insExpected[i], _tokenOut, swapFee)
+		// recipient is the same as the sender until the last pool
+		actualRecipient := sender
+		if len(routes)-1 == i {
+			actualRecipient = recipient
+		}
+		_tokenInAmount, swapErr := k.InternalSwapExactAmountOut(ctx, sender, actualRecipient, pool, route.TokenInDenom, insExpected[i], _tokenOut, swapFee)
 		if swapErr != nil {
 			return math.Int{}, math.LegacyZeroDec(), math.LegacyZeroDec(), swapErr
 		}
